@@ -238,9 +238,28 @@ class Pipeline:
     def analyse(self, text, flagdeps=False, reduce=False, do_lcd=True):
         from osaca.semantics import KernelDG, reduce_to_section
         kernel = self.parser.parse_file(text)
+        kernel0 = self.parser.parse_file(text)          # untouched copy: operands before role assignment
         if reduce:
             kernel = reduce_to_section(kernel, self.isa)
-        self.sem.add_semantics(kernel)
+            kernel0 = reduce_to_section(kernel0, self.isa)
+        # record which ISA entry assign_src_dst applies to each line (None: default roles)
+        rec = []
+        sem = self.sem
+        orig_assign, orig_apply = sem.assign_src_dst, sem._apply_found_ISA_data
+
+        def assign_wrap(iform):
+            rec.append(None)
+            return orig_assign(iform)
+
+        def apply_wrap(isa_data, operands):
+            rec[-1] = isa_data
+            return orig_apply(isa_data, operands)
+        sem.assign_src_dst, sem._apply_found_ISA_data = assign_wrap, apply_wrap
+        try:
+            self.sem.add_semantics(kernel)
+        finally:
+            del sem.assign_src_dst, sem._apply_found_ISA_data
+        self.last_roles_inputs = (kernel0, rec)
         dg = KernelDG(kernel, self.parser, self.mm, self.sem, -1, flagdeps) if do_lcd else None
         return kernel, dg
 
@@ -308,6 +327,82 @@ def serialise(kernel, sem):
                       "loadnode": INSTR_FLAGS.HAS_LD in inst.flags and INSTR_FLAGS.LD not in inst.flags,
                       "chg": chg(sem.get_reg_changes(inst)), "chg_post": chg(sem.get_reg_changes(inst, only_postindexed=True))})
     return lines
+
+
+def serialise_roles_inputs(kernel0, rec, kernel):
+    """per line: parsed operands with their ==-class, the ISA entry applied (or None), whether it is an instruction"""
+    from osaca.parser.register import RegisterOperand
+    from osaca.parser.memory import MemoryOperand
+    from osaca.parser.flag import FlagOperand
+    from osaca.parser.immediate import ImmediateOperand
+    from osaca.parser.operand import Operand
+    mems = []
+
+    def memkey(m):
+        for i, o in enumerate(mems):
+            if o == m:
+                return i
+        mems.append(m)
+        return len(mems) - 1
+    # memory ==-classes must be numbered as in serialise(): first the lines' semantic operands in order
+    for inst in kernel:
+        so = inst.semantic_operands or {}
+        for part in ("source", "destination", "src_dst"):
+            for o in so.get(part, []):
+                if isinstance(o, MemoryOperand):
+                    memkey(o)
+
+    def ser(o):
+        if isinstance(o, RegisterOperand):
+            return ("reg", {"name": str(o.name), "prefix": o.prefix or "", "pidx": False})
+        if isinstance(o, FlagOperand):
+            return ("flag", str(o.name))
+        if isinstance(o, MemoryOperand):
+            off = o.offset
+            so = None if off is None else (int(off.value) if isinstance(off, ImmediateOperand) and isinstance(off.value, int) else "sym")
+            return ("mem", {"base": ser(o.base)[1] if isinstance(o.base, RegisterOperand) else None,
+                            "index": ser(o.index)[1] if isinstance(o.index, RegisterOperand) else None,
+                            "scale": int(o.scale), "off": so, "pre": bool(o.pre_indexed), "post": bool(o.post_indexed),
+                            "key": memkey(o)})
+        return ("other", None)
+
+    def flag(op, name):
+        return bool(getattr(op, name)) if isinstance(op, Operand) else bool(op[name])
+    out = []
+    for i0, e in zip(kernel0, rec):
+        ops = list(i0.operands or [])
+        keys = []
+        for i, o in enumerate(ops):
+            k = i
+            for j in range(i):
+                if ops[j] == o:
+                    k = keys[j]
+                    break
+            keys.append(k)
+        entry = None
+        if e is not None:
+            entry = {"roles": [(flag(o, "source"), flag(o, "destination")) for o in e.operands],
+                     "hidden": [(ser(h), (flag(h, "source"), flag(h, "destination"))) for h in (e.hidden_operands or [])],
+                     "idiom": bool(e.breaks_dependency_on_equal_operands)}
+        out.append({"ops": [(ser(o), k) for o, k in zip(ops, keys)], "entry": entry,
+                    "instr": i0.mnemonic is not None and i0.operands is not None})
+    return out
+
+
+def coq_roles(roles):
+    B = lambda b: "true" if b else "false"
+    items = []
+    for r in roles:
+        ops = "[" + "; ".join("(%s, %d%%nat)" % (coq_opnd(o), k) for o, k in r["ops"]) + "]"
+        if r["entry"] is None:
+            e = "None"
+        else:
+            en = r["entry"]
+            e = "(Some (mkE [%s] [%s] %s))" % ("; ".join("(%s, %s)" % (B(a), B(b)) for a, b in en["roles"]),
+                                               "; ".join("(%s, (%s, %s))" % (coq_opnd(h), B(a), B(b)) for h, (a, b) in en["hidden"]),
+                                               B(en["idiom"]))
+        items.append("(%s, %s, %s)" % (B(r["instr"]), e, ops))
+    return "[" + ";\n    ".join(items) + "]"
 
 
 def edges_of(dg):
@@ -430,7 +525,7 @@ def reference_raw(isa, gen_lines, flagdeps):
 
 # ------------------------------------------------------------------ case shards for Model/Deps.v + Model/CritPath.v
 SHARD_HEADER = """From Coq Require Import ZArith List Bool String PrimFloat.
-From OV Require Import Model.Num Model.Pressure Model.PyString Model.RegRec Model.Deps Model.CritPath Gen.RegDepX86 Gen.RegDepA64.
+From OV Require Import Model.Num Model.Pressure Model.PyString Model.RegRec Model.Deps Model.CritPath Model.Roles Gen.RegDepX86 Gen.RegDepA64.
 Import ListNotations.
 Open Scope string_scope.
 Set Printing Width 100000. Set Printing Depth 100000.
@@ -445,9 +540,29 @@ Definition entry_eqb (a b : float * list (nat * float)) : bool :=
   andb (f_biteq (fst a) (fst b)) (pairs_eqb FNum (snd a) (snd b)).
 Definition entries_same (m e : list (float * list (nat * float))) : bool :=
   andb (Nat.eqb (List.length m) (List.length e)) (forallb (fun x => existsb (entry_eqb x) m) e).
+Definition reg_eqb (a b : regop) : bool := andb (andb (String.eqb (r_name a) (r_name b)) (String.eqb (r_prefix a) (r_prefix b))) (Bool.eqb (r_pidx a) (r_pidx b)).
+Definition oreg_eqb (a b : option regop) : bool := match a, b with Some x, Some y => reg_eqb x y | None, None => true | _, _ => false end.
+Definition offs_eqb (a b : offs) : bool := match a, b with ONone, ONone => true | OSym, OSym => true | OImm x, OImm y => Z.eqb x y | _, _ => false end.
+Definition mem_eqb (a b : memop) : bool :=
+  andb (andb (andb (oreg_eqb (m_base a) (m_base b)) (oreg_eqb (m_index a) (m_index b))) (andb (Z.eqb (m_scale a) (m_scale b)) (offs_eqb (m_off a) (m_off b))))
+       (andb (andb (Bool.eqb (m_pre a) (m_pre b)) (Bool.eqb (m_post a) (m_post b))) (Nat.eqb (m_key a) (m_key b))).
+Definition opnd_eqb (a b : opnd) : bool :=
+  match a, b with OReg x, OReg y => reg_eqb x y | OFlag x, OFlag y => String.eqb x y | OMem x, OMem y => mem_eqb x y | OOther, OOther => true | _, _ => false end.
+Fixpoint opnds_eqb (a b : list opnd) : bool :=
+  match a, b with [], [] => true | x :: r, y :: s => andb (opnd_eqb x y) (opnds_eqb r s) | _, _ => false end.
+Definition roles_eqb (a b : list opnd * list opnd * list opnd) : bool :=
+  let '(s1, d1, sd1) := a in let '(s2, d2, sd2) := b in andb (opnds_eqb s1 s2) (andb (opnds_eqb d1 d2) (opnds_eqb sd1 sd2)).
+Definition roles_ok (x86 : bool) (lines : list (line (T:=float))) (rs : list (bool * option isa_entry * list popnd)) : bool :=
+  andb (Nat.eqb (List.length lines) (List.length rs))
+       (forallb (fun p : line (T:=float) * (bool * option isa_entry * list popnd) => let '(l, (instr, e, ops)) := p in
+                          match l_sem l with
+                          | None => true
+                          | Some sem => roles_eqb (if instr then assign_roles x86 e ops else ([], [], [])) sem
+                          end) (combine lines rs)).
 Record dcase := mkC { c_x86 : bool; c_lines : list (line (T:=float)); c_flags : bool; c_fwd : float; c_pidx : float;
-                      c_edges : list fedge; c_cp : option (list (nat * float)); c_lcd : option (list (float * list (nat * float))) }.
-Definition check (c : dcase) : bool * bool * bool :=
+                      c_edges : list fedge; c_cp : option (list (nat * float)); c_lcd : option (list (float * list (nat * float)));
+                      c_roles : option (list (bool * option isa_entry * list popnd)) }.
+Definition check (c : dcase) : bool * bool * bool * bool :=
   let dep := if c_x86 c then depx else depa in
   let g := create_dg FNum dep (c_fwd c) (c_pidx c) (c_flags c) (c_lines c) in
   let eok := edges_same g (c_edges c) in
@@ -462,14 +577,15 @@ Definition check (c : dcase) : bool * bool * bool :=
              | None => true
              | Some es => entries_same (lcd_entries FNum dep (c_fwd c) (c_pidx c) (c_flags c) (c_lines c)) es
              end in
-  (eok, cok, lok).
+  let rok := match c_roles c with None => true | Some rs => roles_ok (c_x86 c) (c_lines c) rs end in
+  (eok, cok, lok, rok).
 """
 SHARD_FOOTER = """
 Definition summary :=
   let rs := map check cases in
   let idx := seq 0 (List.length rs) in
-  let pick (f : bool * bool * bool -> bool) := String.concat "," (map (fun p => string_of_nat (fst p)) (filter (fun p => negb (f (snd p))) (combine idx rs))) in
-  pick (fun r => fst (fst r)) ++ "|" ++ pick (fun r => snd (fst r)) ++ "|" ++ pick (fun r => snd r) ++ "|" ++ string_of_nat (List.length rs).
+  let pick (f : bool * bool * bool * bool -> bool) := String.concat "," (map (fun p => string_of_nat (fst p)) (filter (fun p => negb (f (snd p))) (combine idx rs))) in
+  pick (fun r => fst (fst (fst r))) ++ "|" ++ pick (fun r => snd (fst (fst r))) ++ "|" ++ pick (fun r => snd (fst r)) ++ "|" ++ pick (fun r => snd r) ++ "|" ++ string_of_nat (List.length rs).
 Eval vm_compute in summary.
 """
 
@@ -496,9 +612,10 @@ def coq_case(c):
     cp = "None" if c.get("cp") is None else "(Some [%s])" % "; ".join("(%d%%nat, %s)" % (n, flit(x)) for n, x in c["cp"])
     lcd = "None" if c.get("lcd") is None else "(Some [%s])" % "; ".join(
         "(%s, [%s])" % (flit(s), "; ".join("(%d%%nat, %s)" % (n, flit(x)) for n, x in m)) for s, m in c["lcd"])
-    return "(mkC %s\n   %s\n   %s %s %s\n   %s\n   %s\n   %s)" % (
+    roles = "None" if c.get("roles") is None else "(Some %s)" % coq_roles(c["roles"])
+    return "(mkC %s\n   %s\n   %s %s %s\n   %s\n   %s\n   %s\n   %s)" % (
         "true" if c["isa"] == "x86" else "false", coq_kernel(c["lines"]), "true" if c["flagdeps"] else "false",
-        flit(c["fwd"]), flit(c["pidx"]), coq_edges(c["edges"]), cp, lcd)
+        flit(c["fwd"]), flit(c["pidx"]), coq_edges(c["edges"]), cp, lcd, roles)
 
 
 def coq_shard(cases):
@@ -512,6 +629,9 @@ def build_case(pipe, text, flagdeps, with_lcd=True, with_cp=True, reduce=False):
             "fwd": float(pipe.mm.get("store_to_load_forward_latency", 0) or 0.0),
             "pidx": float(pipe.mm.get("p_index_latency", 1)),
             "lines": serialise(kernel, pipe.sem), "edges": edges_of(dg.dg)}
+    k0, rec = pipe.last_roles_inputs
+    if len(k0) == len(kernel) == len(rec):
+        case["roles"] = serialise_roles_inputs(k0, rec, kernel)
     if with_lcd:
         case["lcd"] = lcd_entries(dg)
     if with_cp:
